@@ -161,6 +161,9 @@ def build_case(j: int, job: Dict[str, Any], r: Dict[str, Any]) -> Tuple[str, Lis
                     metas.append((j, "tie", i, (mode, tg)))
                 exprs.append(f"(verdict s_{j} {i} {tg} {f_arg})")
                 metas.append((j, "verdict", i, (mode, tg)))
+                if tg == "TgPy" and real is not None and real != "None":
+                    exprs.append(f"(Z.of_nat (first_mismatch (py_attrs_fp s_{j} {i}) {cl.py_attrs_fps(o['items'][bn])} 0))")
+                    metas.append((j, "tie", i, (mode, "class attributes")))
     return defs, exprs, metas
 
 
@@ -269,8 +272,8 @@ def run(ck: Check) -> None:
         jobs.append({"files": c["files"], "order": c["order"], "filter": c.get("filter") or [],
                      "modes": c.get("modes"), "origin": "corpus:" + os.path.basename(p), "expect": c.get("expect")})
     n_corpus = len(jobs)
-    n_own = ck.n(14, 400)
-    n_sg = ck.n(6, 150)
+    n_own = ck.n(12, 400)
+    n_sg = ck.n(5, 150)
     if os.environ.get("VERIF_C10_N"):            # development aid: "own,schema_gen" sizes
         n_own, n_sg = [int(x) for x in os.environ["VERIF_C10_N"].split(",")]
     own: List[Dict[str, Any]] = []
